@@ -284,48 +284,75 @@ def validate_trace(ctx: Ctx, events, name, nids=4):
     return reports[-1]["bad"]
 
 
-TIER = {"quick": dict(pats="PatQuick", nids=3, edges=2, dim3=True, maxeps=6, delta="DeltaQuick", ndiag=300),
-        "thorough": dict(pats="PatFull", nids=3, edges=3, dim3=True, maxeps=6, delta="DeltaFull", ndiag=8000)}
+TIER = {"quick": dict(passes=[("PatQuick", 3, 2)], dim3=True, maxeps=6, delta="DeltaQuick", ndiag=300),
+        # thorough: every pattern with histories of two steps, and the quick pattern table with histories of three steps
+        # (PatFull with three steps is ~70 M states with rank-9 results: it did not finish in an hour on 16 cores)
+        "thorough": dict(passes=[("PatFull", 3, 2), ("PatQuick", 3, 3)], dim3=True, maxeps=6, delta="DeltaFull", ndiag=8000)}
+
+
+def _chunks(it, n):
+    buf = []
+    for x in it:
+        buf.append(x)
+        if len(buf) == n:
+            yield buf
+            buf = []
+    if buf:
+        yield buf
 
 
 def run(ctx: Ctx):
     t = TIER[ctx.tier]
-    cfg = cfg_text(constants={"Patterns": "XX", "MaxEdges": t["edges"], "NIds": t["nids"], "WithDim3": t["dim3"],
-                              "DoDump": True}, invariants=INVS, constraints=["Dump"])
-    cfg = cfg.replace("Patterns = XX", f"Patterns <- {t['pats']}")
-    r = ctx.tlc("Diagram", cfg, dump=True, timeout=3400)
-    recs = list(read_dump(r["dump"]))
-    if not recs:
-        raise MachineryError("no history dumped")
-    cfg2 = cfg_text(constants={"MaxEps": t["maxeps"], "DeltaSizes": "XX", "DoDump": True}, invariants=ED_INVS,
-                    constraints=["Dump"]).replace("DeltaSizes = XX", f"DeltaSizes <- {t['delta']}")
-    r2 = ctx.tlc("EpsDelta", cfg2, dump=True)
-    ed = list(read_dump(r2["dump"]))
     strata = {}
-    for x in recs:
-        strata[x["s"]] = strata.get(x["s"], 0) + 1
+    nhist = 0
+    mid = None
+    for pats, nids, edges in t["passes"]:
+        cfg = cfg_text(constants={"Patterns": "XX", "MaxEdges": edges, "NIds": nids, "WithDim3": t["dim3"],
+                                  "DoDump": True}, invariants=INVS, constraints=["Dump"])
+        cfg = cfg.replace("Patterns = XX", f"Patterns <- {pats}")
+        r = ctx.tlc("Diagram", cfg, name=f"Diagram-{pats}-{edges}", dump=True, timeout=3400)
+
+        def jobs():
+            nonlocal nhist, mid
+            for chunk in _chunks(read_dump(r["dump"]), 300):
+                for x in chunk:
+                    strata[x["s"]] = strata.get(x["s"], 0) + 1
+                    ctx.count(x["s"])
+                    if x["s"] != "general" and len(ctx.nontrivial_keys) < 200000:
+                        ctx.nontrivial(str((x["w"], x["h"])))
+                nhist += len(chunk)
+                if mid is None and nhist > 3000:
+                    mid = chunk[len(chunk) // 2]
+                yield ("hist", chunk)
+
+        with Pool(16) as pool:
+            for res in pool.imap_unordered(_work, jobs(), chunksize=1):
+                for m in res:
+                    if m["stratum"] == "machinery":
+                        raise MachineryError(m["observed"])
+                    ctx.mismatch(m["site"], m["stratum"], m["case"], m["expected"], m["observed"])
+        (ctx.work / f"Diagram-{pats}-{edges}.dump").unlink(missing_ok=True)
+        ctx.log(f"pass {pats}/{edges} edges: {nhist} histories replayed so far")
+    if not nhist:
+        raise MachineryError("no history dumped")
     for need in ("no-index-left", "size-mismatch", "self-edge", "repeated-edge", "value-equal-copies", "free-axes",
                  "tensor-product", "general"):
         if not strata.get(need):
             raise MachineryError(f"stratum {need} was never visited (vacuous)")
-    jobs = [("hist", recs[i:i + 300]) for i in range(0, len(recs), 300)] + [("ed", ed)]
-    ctx.log(f"{len(recs)} histories, {len(ed)} eps/delta tables, {len(jobs)} jobs")
-    with Pool(16) as pool:
-        results = pool.map(_work, jobs, chunksize=1)
-    for res in results:
-        for m in res:
-            if m["stratum"] == "machinery":
-                raise MachineryError(m["observed"])
-            ctx.mismatch(m["site"], m["stratum"], m["case"], m["expected"], m["observed"])
-    for x in recs:
-        ctx.count(x["s"])
-        if x["s"] != "general":
-            ctx.nontrivial(str((x["w"], x["h"])))
+    cfg2 = cfg_text(constants={"MaxEps": t["maxeps"], "DeltaSizes": "XX", "DoDump": True}, invariants=ED_INVS,
+                    constraints=["Dump"]).replace("DeltaSizes = XX", f"DeltaSizes <- {t['delta']}")
+    r2 = ctx.tlc("EpsDelta", cfg2, dump=True)
+    ed = list(read_dump(r2["dump"]))
+    for m in _work(("ed", ed)):
+        if m["stratum"] == "machinery":
+            raise MachineryError(m["observed"])
+        ctx.mismatch(m["site"], m["stratum"], m["case"], m["expected"], m["observed"])
     for x in ed:
         ctx.count(f"{x['t']}({x['n']},{x['p']})", n=max(1, len(x["nz"])))
         ctx.nontrivial(("ed", x["t"], x["n"], x["p"]))
-    ctx.cov["traces_validated_against_impl"] += len(recs) + len(ed)
-    ctx.sample({"history": recs[len(recs) // 2]["h"], "world": recs[len(recs) // 2]["w"], "expected": recs[len(recs) // 2]["r"]})
+    ctx.cov["traces_validated_against_impl"] += nhist + len(ed)
+    if mid is not None:
+        ctx.sample({"history": mid["h"], "world": mid["w"], "expected": mid["r"]})
     # ---- code -> spec
     for part in range(0, t["ndiag"], 700):
         events = record_trace(ctx.seed * 31 + part, min(700, t["ndiag"] - part))
